@@ -18,3 +18,11 @@ add("C08", OTHER, "SSA -> SMT: isReduced path-forked in bit-vectors against the 
     "All 2^256 / 2^512 byte strings: SetCanonicalBytes accepts iff value < l (isReduced decided on each of its early-exit paths), SetUniformBytes = value mod l (21+21+22 split, constants 2^168, 2^336 checked), SetBytesWithClamping = RFC 8032 clamp mod l on a copy, Bytes = little-endian canonical value; every other length rejected atomically.",
     "Trusted: go/ssa, executor, z3; fiat preconditions (input < l) are proved per call site.",
     "DESIGN.md 5/C08")
+add("C02", OTHER, "SSA -> ring-mode symbolic execution (integer polynomials) + ideal-membership certificates validated by z3 as integer polynomial identities; field calls justified by Int-LF kernel contracts",
+    "For symbolic projective coordinates of valid points (no bound), Add/Subtract/Negate outputs satisfy the cross-multiplied affine Edwards law, the curve equation, XY=ZT and a Z factorisation whose factors are non-zero by completeness; all receiver/argument aliasings; internal conversions, doubling and cached additions likewise (MultByCofactor composes the doubling contract). Completeness lemmas validated as identities, Euler criterion concrete.",
+    "Trusted: GF(p) is a field, the last step of the Bernstein-Lange argument, go/ssa, executor, z3. Certificate search (own multivariate division) is untrusted.",
+    "DESIGN.md 5/C02")
+add("C01", OTHER, "SSA -> group-mode symbolic execution (free abelian group with Int-LF coefficients, solver-decided merging of VarTime branches) on top of recoder (Int-LF / BV inductive), selector (BV) and formula (certificate) contracts discharged from the real SSA",
+    "For all scalars in [0,l) and abstract points: each of the five routines returns sum k_j*P_j with coefficient 0 for the prior receiver, from a zero-value/identity/arbitrary/aliased receiver, n<=2 (quick) / n<=4 (thorough) terms, n=0 gives the identity; tables are built by executing the real constructors; 64-digit loops unrolled, 256-step NAF loops merged per iteration.",
+    "Trusted: as C02 plus the linear-arithmetic reading of 'represents k*P'; n above the bound outside.",
+    "DESIGN.md 5/C01")
